@@ -367,6 +367,15 @@ def run_mutations(make_scenario, bound, desc0, paths, stats, scratch, with_entry
             tree = sc.build()
         except (KeyError, IsADirectoryError):
             return None      # mutation combination not constructible (e.g. file deleted twice)
+        objs = set(tree.files) | set(tree.links)
+        for q in list(tree.files) + list(tree.links) + list(tree.dirs):
+            anc = os.path.dirname(q)
+            while anc:
+                if anc in objs:
+                    return None      # something placed beneath what another mutation turned into a regular file
+                anc = os.path.dirname(anc)
+        if any(q in objs for q in tree.dirs):
+            return None
         path = ch.pick(paths, 'path')
         return tree, path, applied
 
